@@ -17,9 +17,9 @@ import (
 // types.Vote.Verify (covered by C11); all arithmetic is the checker's.
 
 type poolCtx struct {
-	H     uint64                // height of the pool's state
-	T     time.Time             // time of block H
-	Times map[uint64]time.Time  // time of block h for every h <= H the chain has
+	H     uint64               // height of the pool's state
+	T     time.Time            // time of block H
+	Times map[uint64]time.Time // time of block h for every h <= H the chain has
 	Chain string
 }
 
